@@ -8,8 +8,12 @@
 EXTENDS OscWire, Json, IOUtils
 Log == ndJsonDeserialize(IOEnv.TRACE)
 VARIABLE l
-Init == l \in 1..Len(Log)
-Next == UNCHANGED l
+\* Fan-out so that TLC's workers judge lines in parallel (initial states are computed by
+\* one thread): NB block states -b, each with the lines congruent to b as successors.
+NB == 64
+Init == l \in {0 - b : b \in 1..NB}
+Next == /\ l < 0
+        /\ \E j \in 0..(Len(Log) \div NB) : LET i == j * NB + (0 - l) IN i <= Len(Log) /\ l' = i
 
 NonBr(args) == SelectSeq(args, LAMBDA a : a.t \notin {"[", "]"})
 ExpVal(a) == CASE a.t = "T" -> <<1>> [] a.t = "F" -> <<0>> [] OTHER -> a.v
@@ -61,11 +65,39 @@ CapFails(r) ==
        (IF r.sizeq = Len(enc) THEN {} ELSE {"sizeq"})
        \cup (IF r.ret_big = Len(enc) /\ r.bytes = enc THEN {} ELSE {"reference_image"})
        \cup Tagged("a:", CapFailsOne(r, enc, r.rets_a, r.zero_a, r.eq_a, r.guard_a, r.asan_a))
-       \cup Tagged("v:", CapFailsOne(r, enc, r.rets_v, r.zero_v, r.eq_v, r.guard_v, r.asan_v))
+       \cup (IF r.v_done THEN Tagged("v:", CapFailsOne(r, enc, r.rets_v, r.zero_v, r.eq_v, r.guard_v, r.asan_v)) ELSE {})
        \cup (IF r.av_done THEN Tagged("av:", CapFailsOne(r, enc, r.rets_av, r.zero_av, r.eq_av, r.guard_av, r.asan_av)) ELSE {})
+
+\* ------------------------------------------------------------------ C08 (and the bundle half of C02)
+BundleFails(r) ==
+  IF r.sig # 0 THEN {"crash"}
+  ELSE LET n   == Len(r.elems)
+           ee  == [i \in 1..n |-> EncElem(r.elems[i])]
+           enc == BundleHead \o LimbsBE(r.tt) \o Concat([i \in 1..n |-> BE32Nat(Len(ee[i])) \o ee[i]]) IN
+       {k \in {"elements_built", "asan_build", "message_taken_for_bundle", "ret", "bytes", "is_bundle", "nelems", "sizes",
+               "fetch", "timetag", "mlen", "asan_acc"} :
+        ~ CASE k = "elements_built" -> r.kids_ok
+            [] k = "asan_build" -> r.asan_build = 0
+            [] k = "message_taken_for_bundle" -> \A i \in 1..Len(r.msg_is_bundle) : ~ r.msg_is_bundle[i]
+            [] k = "ret"       -> r.ret_big = Len(enc)
+            [] k = "bytes"     -> r.bytes = enc
+            [] k = "is_bundle" -> r.acc => r.is_bundle
+            [] k = "nelems"    -> r.acc => r.nelems = n
+            [] k = "sizes"     -> r.acc => r.sizes = [i \in 1..n |-> Len(ee[i])]
+            [] k = "fetch"     -> r.acc => \A i \in 1..n : /\ r.offs[i] >= 0 /\ r.offs[i] + r.sizes[i] <= Len(r.bytes)
+                                                           /\ SubSeq(r.bytes, r.offs[i] + 1, r.offs[i] + r.sizes[i]) = ee[i]
+            [] k = "timetag"   -> r.acc => r.timetag = r.tt
+            [] k = "mlen"      -> r.acc => r.mlen = Len(enc)
+            [] k = "asan_acc"  -> r.asan_acc = 0 }
+BundleCapFails(r) ==
+  IF r.sig # 0 THEN {"crash"}
+  ELSE LET enc == EncBundle(r.tt, r.elems) IN
+       (IF r.ret_big = Len(enc) /\ r.bytes = enc THEN {} ELSE {"reference_image"})
+       \cup Tagged("bundle:", CapFailsOne(r, enc, r.rets, r.zero, r.eq, r.guard, r.asan))
 
 Fails(r) == CASE r.k = "msg" -> MsgFails(r)
               [] r.k = "cap" -> CapFails(r)
+              [] r.k = "bundle" -> IF Has(IOEnv, "BUNDLE_AS") /\ IOEnv.BUNDLE_AS = "cap" THEN BundleCapFails(r) ELSE BundleFails(r)
               [] OTHER -> {"unknown_record_kind"}
-Judge == LET f == Fails(Log[l]) IN f = {} \/ PrintT(<<"REJECT", l, f>>)
+Judge == l < 0 \/ LET f == Fails(Log[l]) IN f = {} \/ PrintT(<<"REJECT", l, f>>)
 =============================================================================
